@@ -75,7 +75,7 @@ def run(ctx):
                 if rep.get("sample") and len(ctx.cov["samples"]) < 2 and label == "default":
                     ctx.sample({"kind": "TLC-generated program replayed on the real ParserState", "slice": name, **rep["sample"]})
     # nested checkpoints: programs grown symbol by symbol as TLC states (MC_PsmNest), two families
-    allclosers = '{"seq", "seqfail", "restore", "restorefail", "lookpos", "looknegfail", "optfail", "optseqfail"}'
+    allclosers = '{"seq", "seqfail", "restore", "restorefail", "lookpos", "looknegfail", "optfail", "optseqfail", "rep"}'
     fams = [("fresh", '{"push", "drop"}', allclosers, 8 if quick else 9, 3 if quick else 4, 0, 1),
             ("match", '{"pusha", "pushb", "stra", "peek", "pop", "matchpeek", "matchpop", "slice01", "sliceneg"}',
              '{"seq", "seqfail", "optfail", "looknegfail", "lookpos"}', 5 if quick else 6, 2, 3, 1),
